@@ -3,8 +3,8 @@
 import json, os, sys
 ROOT = os.path.dirname(os.path.dirname(os.path.abspath(__file__)))
 sys.path.insert(0, os.path.join(ROOT, "tools"))
-from props import PROPS
-from manifest_text import TEXT, NOT_YET
+from props import PROPS, TEXT
+from manifest_text import NOT_YET
 
 ALL = ["C%02d" % i for i in range(1, 21)]
 checks = []
